@@ -68,6 +68,12 @@ def cases(seed, tier):
         if not any(k in gen.PROBE_KEX for k in p['kex']):
             p['kex'].insert(0, 'curve25519-sha256')
         perts = rng.sample(PERT, rng.randrange(2, 5))
+        r2 = gen.case_rng(seed, ID, i, 'two-gex')
+        if r2.random() < 0.25:
+            # both group-exchange algorithms, each measured on its own: a drift of the modulus handed out for one of them only
+            p['kex'] = [k for k in p['kex'] if k not in gen.GEX] + r2.sample(list(gen.GEX), 2)
+            p['gex'] = {'sizes': [r2.choice([1024, 1536, 3072, 4096])], 'style': 'strict'}
+            perts = perts + ['gex_one']
         yield {'kind': 'custom', 'profile': p, 'perts': perts, 'opts': rng.choice([['-n'], ['-j'], ['-n', '-b']]), 'net': gen.rand_net(rng) if rng.random() < 0.3 else {'rtt_us': 200},
                'pseed': rng.getrandbits(32), 'exists': rng.random() < 0.1}
 
@@ -126,6 +132,13 @@ def perturb(rng, prof, kind):
             return None
         old = p['gex']['sizes'][0]
         p['gex']['sizes'] = [rng.choice([b for b in (1024, 1536, 3072, 4096) if b != old])]
+        return p, 'dh'
+    if kind == 'gex_one':
+        algs = [g for g in gen.GEX if g in p['kex']]
+        if 'gex' not in p or len(algs) < 2:
+            return None
+        old = p['gex']['sizes'][0]
+        p['gex']['sizes_by_alg'] = {rng.choice(algs): [rng.choice([b for b in (1024, 1536, 3072, 4096) if b != old])]}
         return p, 'dh'
     return None
 
